@@ -26,6 +26,7 @@ META = {
                     "iterative kernels are compared only when the three executions agree on the convergence flag (chaotic starts)"],
 }
 
+START_ARG = {"IKinBody": 3, "IKinSpace": 3, "IKinSpaceConstrained": 3}     # position of the iteration start in the kernel's arguments
 ITERATIVE = ("kernel:IKinBody", "kernel:IKinSpace", "kernel:IKinSpaceConstrained", "kernel:SPFKinSpaceR", "arm.IK", "arm.IKfree")
 ENVS = {"bc": {"NUMBA_BOUNDSCHECK": "1"}, "jit": {}, "nojit": {"NUMBA_DISABLE_JIT": "1"}}
 
@@ -144,8 +145,22 @@ def flat(x):
     return a.astype(float).ravel().tolist()[:400]
 
 
-def record(ctx, key, fn, desc, nontrivial=True):
-    """Run one call, store (key, result | exception)."""
+def _rel_diff(r1, r2):
+    try:
+        a, b = np.array(r1, dtype=float), np.array(r2, dtype=float)
+    except (ValueError, TypeError):
+        return float("inf")
+    if a.shape != b.shape:
+        return float("inf")
+    fin = np.isfinite(a) & np.isfinite(b)
+    if not np.array_equal(np.isfinite(a), np.isfinite(b)):
+        return float("inf")
+    return float(np.max(np.abs(a[fin] - b[fin]))) / max(1.0, float(np.max(np.abs(b[fin])))) if fin.any() else 0.0
+
+
+def record(ctx, key, fn, desc, nontrivial=True, perturbed=None):
+    """Run one call, store (key, result | exception).  perturbed: the same call with its iteration start moved by 1e-13
+    (relative); the distance between the two answers is stored as the call's own sensitivity 's'."""
     ctx.evaluations += 1
     from ..common import h64
     if nontrivial:
@@ -155,6 +170,11 @@ def record(ctx, key, fn, desc, nontrivial=True):
     try:
         r = flat(fn())
         entry = {"k": key, "r": r}
+        if perturbed is not None:
+            try:
+                entry["s"] = _rel_diff(r, flat(perturbed()))
+            except Exception:
+                entry["s"] = float("inf")
     except IndexError as e:
         entry = {"k": key, "x": "IndexError", "m": repr(e)[:160]}
     except Exception as e:
@@ -176,8 +196,13 @@ def run_triple(spec, ctx, bm):
         for j in range(int(spec["per_fn"])):
             args = kernel_args(name, rng)
             a = copy.deepcopy(args)
+            pert = None
+            if name in START_ARG:
+                a2 = list(copy.deepcopy(args))
+                a2[START_ARG[name]] = a2[START_ARG[name]] * (1 + 1e-13) + 1e-15
+                pert = lambda: f(*a2)
             record(ctx, "kernel:%s#%d" % (name, k), lambda: f(*a), gen.quant(flat(list(args)), 1e-6)[:24],
-                   any(isinstance(x, np.ndarray) and x.size > 1 for x in args))
+                   any(isinstance(x, np.ndarray) and x.size > 1 for x in args), perturbed=pert)
             k += 1
         ctx.cls("kernel:" + name, int(spec["per_fn"]))
     # ---- tm entry points ----
@@ -220,6 +245,7 @@ def run_triple(spec, ctx, bm):
                  ("arm.getJointTransforms", lambda: arm.getJointTransforms()), ("arm.massMatrix", lambda: arm.massMatrix(th.copy())),
                  ("arm.inverseDynamics", lambda: arm.inverseDynamics(th.copy(), qd.copy(), qdd.copy(), None, np.zeros((6, 1)))[0]),
                  ("arm.IK", lambda: _ik(arm, tm, model, th, rng_seed=a_i)), ("arm.IKfree", lambda: _ik(arm, tm, model, th, rng_seed=a_i, protect=True))]
+        perts = {"arm.IK": lambda: _ik(arm, tm, model, th, rng_seed=a_i, eps=1e-13), "arm.IKfree": lambda: _ik(arm, tm, model, th, rng_seed=a_i, protect=True, eps=1e-13)}
         if n == 6:
             calls.append(("arm.inverseDynamicsC", lambda: arm.inverseDynamicsC(th.copy(), qd.copy(), qdd.copy(), None, np.zeros((6, 1)))[0]))
         for i in range(n):
@@ -227,7 +253,7 @@ def run_triple(spec, ctx, bm):
             calls.append(("arm.FKJoint[%d/%d]" % (i, n), lambda i=i: arm.FKJoint(th.copy(), i)))
             calls.append(("arm.jacobianLink[%d/%d]" % (i, n), lambda i=i: arm.jacobianLink(i, th.copy())))
         for nm, fn in calls:
-            record(ctx, "%s#%d" % (nm, k), fn, d + [nm])
+            record(ctx, "%s#%d" % (nm, k), fn, d + [nm], perturbed=perts.get(nm))
             k += 1
     try:
         from . import c17_sp
@@ -242,11 +268,11 @@ def _stm(tm, T):
     return t.gTAA()
 
 
-def _ik(arm, tm, model, th, rng_seed=0, protect=False):
+def _ik(arm, tm, model, th, rng_seed=0, protect=False, eps=0.0):
     import random
     random.seed(rng_seed)
     goal = arm.FK(th.copy()).gTM()
-    r, s = arm.IK(tm(goal), th + 0.01, protect=protect)
+    r, s = arm.IK(tm(goal), (th + 0.01) * (1 + eps) + eps * 1e-2, protect=protect)
     return [np.asarray(r, dtype=float), float(bool(s))]
 
 
@@ -321,6 +347,16 @@ def run_pyfunc(spec, ctx, bm):
                 if name in ("IKinBody", "IKinSpace", "IKinSpaceConstrained") and (fj[-1] != fp[-1] or fj[-1] == 0.0):
                     ctx.bump("iterative_flag_differs_observed", name)
                     continue
+                if name in START_ARG:
+                    a3 = list(copy.deepcopy(a2))
+                    a3[START_ARG[name]] = a3[START_ARG[name]] * (1 + 1e-13) + 1e-15
+                    try:
+                        sens = _rel_diff(fp, flat(f.py_func(*a3)))
+                    except Exception:
+                        sens = float("inf")
+                    if sens > 1e-9:
+                        ctx.bump("iterative_not_compared_sensitive", name)
+                        continue
                 ok = len(fj) == len(fp)
                 e = float("inf")
                 if ok:
@@ -430,10 +466,16 @@ def finalize(m, tier, results):
                 if a != b:
                     viol.append(("three_way", "%s/value_differs/%s" % (_generic(name), env), {"call": key}))
                 continue
+            if _generic(name) in ITERATIVE and any(float(x.get("s", 0.0)) > 1e-9 for x in d.values()):
+                # the call's own answer moves by more than the comparison tolerance when its start moves by 1e-13: rounding decides
+                m["extra"]["three_way_not_compared_sensitive"] = m["extra"].get("three_way_not_compared_sensitive", 0) + 1
+                continue
             if _generic(name) in ITERATIVE and aa.size and (aa[-1] != bb[-1] or (_generic(name) != "kernel:SPFKinSpaceR" and aa[-1] == 0.0)):
                 # differing convergence flag, or a non-converged (chaotic) iterate: nothing to compare
                 m["extra"]["iterative_not_compared"] = m["extra"].get("iterative_not_compared", 0) + 1
                 continue
+            if _generic(name) in ITERATIVE:
+                m["extra"]["three_way_iterative_compared"] = m["extra"].get("three_way_iterative_compared", 0) + 1
             fin = np.isfinite(bb)
             if not np.array_equal(np.isfinite(aa), fin):
                 viol.append(("three_way", "%s/nonfinite_differs/%s" % (_generic(name), env), {"call": key}))
@@ -458,6 +500,8 @@ def finalize(m, tier, results):
         m["inconclusive"].append("py_func comparison covered %d of 47 kernels" % len(pyf))
     if n_cmp == 0:
         m["inconclusive"].append("no call was executed in all three environments")
+    if m["extra"].get("three_way_iterative_compared", 0) < 20:
+        m["inconclusive"].append("fewer than 20 iterative-kernel executions were stable enough to compare")
 
 
 def _group_of(r):
